@@ -9,6 +9,9 @@ Structure of the two summations in getBH_level2 (necessary conditions, not the i
   SUM-ORDER  no pixel aggregation call is reachable after the sumup reduction (typestate over the function's flow)
   SUM-SLICE  the collection loop sums `B[i : i+L]` into row i and deletes rows `i+1 : i+L` of axis 0, with L computed by the same
              flattener call (callee, keywords) that built the rows in format_src_inputs; another form is reported undecided
+  SUM-OFFSET a loop-carried offset that is added to the loop index to address rows must accumulate (rules_offset.py)
+  SUM-SIBLING field-function results that are added/subtracted into one array (hollow cylinder = outer - inner) are built by
+             calls of the same shape (rules_sibling.py)
   MEMO       getters of the collection classes that memoise flattened views need invalidation (rules_memo.py)
 Not decided: that the index arithmetic is right for every arrangement of collections (runtime sizes).
 """
@@ -156,13 +159,18 @@ def level2_superposition(repo, res):
         res.undecided.append("SUM-SLICE: the collection row summation in getBH_level2 is not in the recognised sum-slice/delete-slice form; its index logic is not decided")
     import rules_memo
     rules_memo.run(repo, res, rule="MEMO", modfilter=lambda m: m.endswith("class_Collection"))
+    import rules_offset
+    rules_offset.run(repo, res, "SUM-OFFSET", [W, "magpylib._src.utility"])
+    import rules_sibling
+    rules_sibling.run(repo, res, "SUM-SIBLING")
     return forms
 
 
 def run(repo, res, tier):
     res.rules = ["excitation degree of B,H == 1", "LIN class: Lin proved, Affine violation, NonLin undecided",
                  "SUM-AXIS/SUM-ORDER: sumup reduces axis 0 after pixel aggregation", "SUM-SLICE: collection rows summed and removed consistently",
-                 "MEMO: flattened collection views are not memoised without invalidation"]
+                 "MEMO: flattened collection views are not memoised without invalidation",
+                 "SUM-OFFSET: loop-carried row offsets accumulate", "SUM-SIBLING: superposed sibling calls agree"]
     level2_superposition(repo, res)
     results = dim_rules.run_fields(fields="BH")
     res.require(len(results) >= 20, f"only {len(results)} runs: registry anchors changed")
